@@ -327,7 +327,7 @@ fn pool_has_utf8(pool: Option<&Vec<CpInfo>>, index: u16, value: &[u8]) -> Result
 	let Some(pool) = pool else {
 		return Err(std::io::Error::other("expected to have constant pool at this point of reading"));
 	};
-	let Some(entry) = pool.get((index - 1) as usize) else {
+	let Some(entry) = index.checked_sub(1).and_then(|index| pool.get(index as usize)) else {
 		return Err(std::io::Error::other(format!("no constant pool entry at position {}", index)));
 	};
 	let CpInfo::Utf8 { bytes } = entry else {
